@@ -276,3 +276,19 @@ Proof.
     + left. exists i. split; [apply hits_In; auto|apply Z.leb_le; assumption].
     + right. exists i, j. split; [assumption|]. split; apply hits_In; auto.
 Qed.
+
+(** * Non-vacuity: window edge.  Hash 5 sits at indices 0 and 4 of an 8-entry list.  With clock 8
+    both are candidates (third occurrence); with clock 7 index 0 lies before the last
+    irreversible move; with firstNew = 4 the single hit at index 4 is inside the search tree. *)
+Example rep_iff_example :
+  canClaimDrawRep 8 5%N [5;1;2;3;5;1;2;3;9;9]%N 8 8 = Some true /\
+  repCondition 8 5%N [5;1;2;3;5;1;2;3;9;9]%N 8 8 /\
+  canClaimDrawRep 7 5%N [5;1;2;3;5;1;2;3;9;9]%N 8 8 = Some false /\
+  ~ repCondition 7 5%N [5;1;2;3;5;1;2;3;9;9]%N 8 8 /\
+  canClaimDrawRep 7 5%N [5;1;2;3;5;1;2;3;9;9]%N 8 4 = Some true /\
+  repCondition 7 5%N [5;1;2;3;5;1;2;3;9;9]%N 8 4.
+Proof.
+  split; [reflexivity|]. split; [apply repSpecb_spec; reflexivity|].
+  split; [reflexivity|]. split; [intro H; apply repSpecb_spec in H; discriminate|].
+  split; [reflexivity|]. apply repSpecb_spec; reflexivity.
+Qed.
